@@ -64,6 +64,30 @@ Fixpoint mismatches_from (i : N) (cs : list case) : list N :=
   end.
 Definition mismatches := mismatches_from 0.
 
+(* a history against ONE handler + upf: per request the inputs and what was observed; q_final is
+   upf.sliceInfo at the end if any request replaced it *)
+Record step := Step {
+  t_meth : string; t_body : body;
+  t_statuses : list N; t_writes : list write; t_stored : option slice_info
+}.
+Record seq_case := SeqCase { sq_dp : datapath; sq_steps : list step; sq_final : option slice_info }.
+
+Definition step_agrees (r : result) (t : step) : bool :=
+  all2 N.eqb (r_statuses r) (t_statuses t) &&
+  all2 write_eqb (r_writes r) (t_writes t) &&
+  stored_eqb (r_stored r) (t_stored t).
+
+Definition seq_agrees (c : seq_case) : bool :=
+  let '(rs, st) := run None (sq_dp c) (map (fun t => Req (t_meth t) (t_body t)) (sq_steps c)) in
+  all2 step_agrees rs (sq_steps c) && stored_eqb st (sq_final c).
+
+Fixpoint seq_mismatches_from (i : N) (cs : list seq_case) : list N :=
+  match cs with
+  | [] => []
+  | c :: r => if seq_agrees c then seq_mismatches_from (i + 1) r else i :: seq_mismatches_from (i + 1) r
+  end.
+Definition seq_mismatches := seq_mismatches_from 0.
+
 (* GetSliceTCMeterIndex over all (sliceID, TC) in uint8 x uint8, row-major index i = 256 * sliceID + TC,
    result -1 = an error was returned.  The implementation's table is handed over run-length encoded:
    a segment (start, count, v0, step) stands for the results v0 + step * k at index start + k, k < count. *)
